@@ -199,8 +199,9 @@ class ReconstructTask(T.Task):
         return ok, repr(y), repr(x)
 
     def sample(self, rnd):
-        pool = {"IBAN": ["DE89370400440532013000", "GB29NWBK60161331926819", "XX00", "DE00", ""],
-                "BIC": ["GENODEM1GLS", "DEUTDEFF", "FOO", ""], "BBAN": ["370400440532013000", "12", ""]}[self.cls_name]
+        pool = {"IBAN": ["DE89370400440532013000", "GB29NWBK60161331926819", "XX00", "DE00", "", "ΐ01", "Ǆ89É"],
+                "BIC": ["GENODEM1GLS", "DEUTDEFF", "FOO", "", "ΐΰǅßŉ", "ΐ0123456", "ΐ0123456789"],
+                "BBAN": ["370400440532013000", "12", "", "ΐ1"]}[self.cls_name]
         c = [p for p in pool if len(p) == self.n]
         return {"a": rnd.choice(c)} if c else {"a": "".join(rnd.choice("AB01") for _ in range(self.n))}
 
